@@ -317,6 +317,8 @@ def gen_stream(rng, length, regime=None, positive=False, grid=4):
         regimes = ["iid+", "walk+", "monotone+", "ties+", "const_stretch+", "spike+", "volatile_flat+", "const+"]
     reg = regime or rng.choice(regimes)
     base = reg.rstrip("+")
+    if positive and base == "signs":
+        base, reg = "iid", "iid+"
     g = grid
     def val(lo, hi):
         return Fraction(lo * g + rng.below((hi - lo) * g + 1), g)
